@@ -1062,6 +1062,11 @@ func (fv *FV) callValue(st *State, fun ast.Expr, c *ast.CallExpr) []Term {
 	}
 	role, f := fv.roleOf(st, fun)
 	if role == "" {
+		if id, ok := fun.(*ast.Ident); ok {
+			if cands := fv.funcCands[fv.info.ObjectOf(id)]; len(cands) > 0 {
+				return fv.callCandidates(st, f, cands, c, fv.src(fun))
+			}
+		}
 		fv.fail(c.Pos(), "call of function value %s: no role declared", fv.src(fun))
 	}
 	var args []Term
